@@ -284,6 +284,71 @@ func runC15(c *core.Ctx) {
 	})
 	// (4) unknown kinds arriving from the wire: every block type 0, 8..255 with random type-specific octet and content
 	c.Exhaustive("unknown block types 0, 8..255 arriving from the wire", 249)
+	// a block of a fixed-layout kind (receiver reference time, statistics summary, VoIP metrics)
+	// whose block length announces more words than the layout has: the block still ends where its
+	// length says, whatever the extra words hold, and the blocks after it are found and decoded as
+	// if it had its nominal size
+	c.Section("oversized-fixed-blocks", c.N(30000, 1500000), func(cs *core.Case) {
+		r := cs.R
+		x := &rtcp.ExtendedReport{SenderSSRC: r.B32()}
+		nb := 1 + r.Intn(4)
+		for i := 0; i < nb; i++ {
+			x.Reports = append(x.Reports, gen.XRBlock(r, gen.XRKind(r.Intn(int(gen.NumXRKinds))), false))
+		}
+		e, err := ref.Encode(x, ref.RFC)
+		if err != nil {
+			return
+		}
+		_, blocks, werr := ref.WalkXR(e.B)
+		if werr != nil || len(blocks) != nb {
+			return
+		}
+		// stretch every fixed-layout block, last first so that earlier offsets stay valid
+		in := cloneBytes(e.B)
+		stretched := 0
+		for i := nb - 1; i >= 0; i-- {
+			wb := blocks[i]
+			if wb.BT != 4 && wb.BT != 6 && wb.BT != 7 || r.Chance(1, 4) {
+				continue
+			}
+			extra := 1 + r.Intn(3)
+			fill := r.Bytes(4 * extra)
+			if r.Chance(1, 4) {
+				for j := range fill {
+					fill[j] = 0
+				}
+			}
+			end := wb.Off + wb.Size
+			in = append(in[:end:end], append(fill, in[end:]...)...)
+			bl := wb.Size/4 - 1 + extra
+			in[wb.Off+2], in[wb.Off+3] = byte(bl>>8), byte(bl)
+			stretched++
+		}
+		if stretched == 0 {
+			return
+		}
+		gen.FitLength(in)
+		g, derr, pan := gUnmarshalOwn(gen.XR, cloneBytes(in))
+		cs.Eval(1)
+		cs.Distinct(core.Digest(in))
+		cs.Count("oversized-fixed-blocks")
+		if pan != "" {
+			cs.Fail("panic/Unmarshal", core.W{"input_hex": mon.Hex(in, 300), "panic": pan})
+			return
+		}
+		det := func() core.W {
+			return core.W{"input_hex": mon.Hex(in, 300), "canonical_hex": mon.Hex(e.B, 300), "error": errStr(derr), "decoded": vdump(g), "expected_blocks": vdump(x.Reports)}
+		}
+		if !cs.Check(derr == nil, "oversized-fixed/rejected", det) {
+			return
+		}
+		gx := g.(*rtcp.ExtendedReport)
+		ok := len(gx.Reports) == nb
+		for i := 0; ok && i < nb; i++ {
+			ok = gen.XRKindOf(gx.Reports[i]) == gen.XRKindOf(x.Reports[i]) && mon.SemEqual(normBlock(gx.Reports[i]), normBlock(x.Reports[i]))
+		}
+		cs.Check(ok, "oversized-fixed/blocks", det)
+	})
 	c.Section("unknown-from-wire", 249*c.N(20, 400), func(cs *core.Case) {
 		r := cs.R
 		bt := uint8(cs.Idx % 249)
